@@ -1283,7 +1283,9 @@ package raft
 //@   ensures #reads-kept [C11] old(reads_wf(r)) ==> reads_wf(r)
 //@   ensures #one-deferred-reply [C05] len(r.msgsAfterAppend) == old(len(r.msgsAfterAppend)) + 1 && r.msgs == old(r.msgs)
 //@        && lastDeferred(r).GetType() == pb.MsgAppResp && lastDeferred(r).GetTo() == old(m.GetFrom()) && !lastDeferred(r).GetReject()
-//@   ensures #ack-is-commit [C06 C09] lastDeferred(r).GetIndex() == r.raftLog.committed && r.raftLog.committed <= log_last(r.raftLog)
+//@   after raft.raft.send assert #ack-here [C06 C09] lastDeferred(r).GetIndex() == r.raftLog.committed
+//@   ensures #ack-is-commit [C06 C09] lastDeferred(r).GetIndex() == r.raftLog.committed
+//@   ensures #commit-in-log [C06] r.raftLog.committed <= log_last(r.raftLog)
 //@   ensures #commit-monotone [C07 C09] r.raftLog.committed >= old(r.raftLog.committed)
 //@   ensures #follower-kept [C07] old(r.state) == StateFollower ==> raft_kept_but_msgs(r)
 //@   ensures #never-below-snapshot [C09] old(r.state) == StateFollower ==> r.raftLog.committed == old(r.raftLog.committed) || r.raftLog.committed == old(snapIndex(m.Snapshot))
@@ -1574,9 +1576,12 @@ package raft
 //@   loop 1 invariant #untouched-tail forall p int :: {elem(m.Entries, p)} m.Entries.off + iter <= p && p < m.Entries.off + len(m.Entries) ==> elem(m.Entries, p) == oldelem(m.Entries, p)
 //@   loop 1 invariant #types-kept allocframe("F$raftpb.Entry", "C$raftpb.EntryType")
 //@   loop 1 invariant #pending-conf [C10] r.pendingConfIndex == old(r.pendingConfIndex)
-//@        || (log_last(r.raftLog) + 1 <= r.pendingConfIndex && r.pendingConfIndex < log_last(r.raftLog) + 1 + iter
-//@            && isConfEntry(oldelem(m.Entries, m.Entries.off + (r.pendingConfIndex - log_last(r.raftLog) - 1)))
-//@            && elem(m.Entries, m.Entries.off + (r.pendingConfIndex - log_last(r.raftLog) - 1)) == oldelem(m.Entries, m.Entries.off + (r.pendingConfIndex - log_last(r.raftLog) - 1)))
+//@        || (log_last(r.raftLog) + 1 <= r.pendingConfIndex && r.pendingConfIndex < log_last(r.raftLog) + 1 + iter)
+//@   loop 1 invariant #types-same forall p int, e *pb.Entry :: {oldelem(m.Entries, p), old(e.GetType())} m.Entries.off <= p && p < m.Entries.off + len(m.Entries) && e == oldelem(m.Entries, p) ==> e.GetType() == old(e.GetType())
+//@   loop 1 invariant #pending-conf-is-conf [C10] r.pendingConfIndex != old(r.pendingConfIndex) ==>
+//@        (forall e *pb.Entry :: e == oldelem(m.Entries, m.Entries.off + (r.pendingConfIndex - log_last(r.raftLog) - 1)) ==> old(isConfEntry(e)))
+//@   loop 1 invariant #pending-conf-kept [C10] r.pendingConfIndex != old(r.pendingConfIndex) ==>
+//@        elem(m.Entries, m.Entries.off + (r.pendingConfIndex - log_last(r.raftLog) - 1)) == oldelem(m.Entries, m.Entries.off + (r.pendingConfIndex - log_last(r.raftLog) - 1))
 //@   loop 1 invariant #conf-gate [C10] r.pendingConfIndex != old(r.pendingConfIndex) ==> r.disableConfChangeValidation || old(r.pendingConfIndex) <= r.raftLog.applied
 //@   visit 1 invariant #state wf_raft(r) && typestate(r) && hs_monotone(r) && r.Term == old(r.Term) && r.msgs == old(r.msgs) && r.msgsAfterAppend == old(r.msgsAfterAppend)
 //@        && r.raftLog.committed == old(r.raftLog.committed) && r.trk.Progress == old(r.trk.Progress) && r.id == old(r.id)
